@@ -188,7 +188,7 @@ class Ctx:
                 if "f" in last:
                     # shrinking: bounded by its own budget; once exhausted every input "fails" so that the
                     # shrinker terminates at once and the best genuine failure seen so far is kept
-                    if time.time() > last["shrink_until"]:
+                    if time.time() > last["shrink_until"] or time.time() > self.deadline + 10:
                         last["cut"] = True
                         raise _Stop(last["f"].bucket)
                 elif self.out_of_time():
